@@ -147,7 +147,7 @@ def playback(repo, unit, out_path, log_dir):
         text.append('// concrete-playback unit tests generated by Kani for harness %s (appended to the harness module for the native run)' % unit['harness'])
         text.append(gen)
         open(hf, 'w').write(backup + '\n' + gen + '\n')
-        env = dict(ENV, CARGO_TARGET_DIR=os.path.join(os.path.dirname(target_dir(repo)), 'playback'))
+        env = dict(ENV, CARGO_TARGET_DIR=target_dir(repo).replace('/kani', '/playback', 1) if '/kani' in target_dir(repo) else target_dir(repo) + '_playback')
         for t in tests:
             q = subprocess.run(['cargo', 'kani', 'playback', '-Z', 'concrete-playback', '-p', unit['crate'], '--lib', '--', t],
                                cwd=repo, env=env, capture_output=True, text=True, timeout=3600)
